@@ -332,13 +332,6 @@ func failsWith(p2 []templang.Node, v templang.Variant, kind string) bool {
 	return false
 }
 
-// failsWithout reports whether the program fails for a reason other than the named (already attributed) root cause:
-// the root cause is attributed on the program with every call ending its line; if the original program's failure
-// is not fully explained by it, the legacy call adjacency contributes too. Conservative: any doubt counts as both.
-func failsWithout(prog []templang.Node, v templang.Variant, kind string, rest string) bool {
-	return true
-}
-
 // callsEndTheirLine rewrites every component call so that a line break follows it.
 func callsEndTheirLine(n templang.Node) templang.Node {
 	if n.K == "call" {
@@ -357,6 +350,7 @@ var oddFeatures = []struct {
 	{templang.OddCallBlockOneLine, "TemplElementExpression.BlockWrittenOnOneLine"},
 	{templang.OddCommentBeforeTempl, "TemplateFile.IndentedCommentBeforeTempl"},
 	{templang.OddHeaderSpansLines, "ControlFlowHeader.ExpressionSpansLines"},
+	{templang.OddAttrExprSpansLines, "ExpressionAttribute.RawStringInExpressionThatSpansLines"},
 }
 
 func srcOdd(prog []templang.Node, odd int) string {
@@ -388,18 +382,30 @@ func attribute(prog []templang.Node, v templang.Variant, kind string) string {
 		p2 := mapNodes(prog, callsEndTheirLine)
 		b2, _ := json.Marshal(p2)
 		if !bytes.Equal(b1, b2) {
-			if !failsWith(p2, v, kind) {
-				return "CallTemplateExpression.LegacyCallNotFollowedByLineBreak"
+			// only a source that actually uses the legacy syntax can be explained by that finding; `@c() w1` is
+			// the current syntax and a failure there is a different root cause
+			name := "CallTemplateExpression.CallFollowedOnTheSameLine"
+			if strings.Contains(src(prog, v), "{!") {
+				name = "CallTemplateExpression.LegacyCallNotFollowedByLineBreak"
 			}
-			// still failing with every call ending its line: a second root cause is involved as well
+			if !failsWith(p2, v, kind) {
+				return name
+			}
+			// still failing with every call ending its line: is the failure explained without looking at the calls?
+			if r := attributeRest(prog, v, kind); !strings.HasPrefix(r, "Format.") {
+				return r
+			}
+			// no: a second root cause is involved as well
 			if rest := attribute(p2, v, kind); !strings.HasPrefix(rest, "Format.") && failsWith(p2, v, kind) {
-				if failsWithout(prog, v, kind, rest) {
-					return "CallTemplateExpression.LegacyCallNotFollowedByLineBreak+" + rest
-				}
-				return rest
+				return name + "+" + rest
 			}
 		}
 	}
+	return attributeRest(prog, v, kind)
+}
+
+// attributeRest attributes a failure to one of the root causes that do not involve what follows a component call.
+func attributeRest(prog []templang.Node, v templang.Variant, kind string) string {
 	if kind == "c08-changed" {
 		b1, _ := json.Marshal(prog)
 		// Known root cause: writeNodes forces a line break (before block-level nodes and elements whose
